@@ -123,3 +123,40 @@ def lengths_consistent(a):
 
 def tok(x):
     return str(x)
+
+
+def spec_from_state(a):
+    """read an Atoms object's current (possibly symbolic) contents into a Spec: used to check one step of a
+    sequence relative to the state the previous step produced"""
+    sp = Spec()
+    sp.N = len(a.positions)
+    sp.types = list(a.atom_types)
+    sp.charges = list(a.charges)
+    sp.groups = list(a.groups)
+    sp.pos = [list(r) for r in a.positions]
+    sp.tables['atom'] = dict(elements=[str(x) for x in a.atom_type_elements],
+                             masses=[float(x) for x in a.atom_type_masses],
+                             labels=[str(x) for x in a.atom_type_labels], pair=[str(x) for x in a.pair_coeffs])
+    sp.extra_labels['atom'] = list(a.extra_atom_labels)
+    sp.extra['atom'] = [[tok(x) for x in r] for r in a.extra_atom_fields]
+    for kind, ar in KINDS:
+        sp.terms[kind] = term_rows(a, kind)
+        sp.tables[kind] = [str(x) for x in getattr(a, COEFF_ATTR[kind])]
+        sp.extra_labels[kind] = list(getattr(a, f'extra_{kind}_labels'))
+        sp.extra[kind] = [[tok(x) for x in r] for r in getattr(a, f'extra_{kind}_fields')]
+    return sp
+
+
+def resolves_to(result_table, result_type, source_table, source_type):
+    """result_table[result_type] is the same text as source_table[source_type] (type ids possibly symbolic)"""
+    cs = []
+    for v, text in enumerate(source_table):
+        ws = [w for w, t in enumerate(result_table) if t == text]
+        cs.append(IMPLIES(EQ(source_type, v), OR(*[EQ(result_type, w) for w in ws])))
+    cs.append(AND(source_type >= 0, source_type < len(source_table)))
+    return AND(*cs)
+
+
+def merged_row(labels_after, labels_src, row_src):
+    """expected extra-field row after a label-wise merge ('.' where the source has no such column)"""
+    return [row_src[labels_src.index(l)] if l in labels_src else '.' for l in labels_after]
